@@ -1661,8 +1661,24 @@ class Machine:
         if isinstance(target, ast.Name):
             self.bind(env, target.id, v)
         elif isinstance(target, (ast.Tuple, ast.List)):
-            if not isinstance(v, tuple) or len(v) != len(target.elts):
+            n = len(target.elts)
+            if any(isinstance(t, ast.Starred) for t in target.elts):
+                raise Unsupported("starred unpacking")
+            if isinstance(v, ListRef) and isinstance(self.heap[v.addr], list):
+                v = tuple(self.heap[v.addr])
+            if isinstance(v, (ListRef, SymSeq)):
+                # unpacking a sequence of integers / characters: ValueError unless it has exactly n elements
+                sq = self.as_seq(v)
+                if isinstance(sq.length, int):
+                    if sq.length != n:
+                        raise RaiseEx("ValueError")
+                elif not self.branch(simp(sq.length == n), "unpack-length"):
+                    raise RaiseEx("ValueError")
+                v = tuple(self.seq_item(sq, k) for k in range(n))
+            if not isinstance(v, tuple):
                 raise Unsupported("unpacking")
+            if len(v) != n:
+                raise RaiseEx("ValueError")
             for t, x in zip(target.elts, v):
                 self.assign(t, x, env)
         elif isinstance(target, ast.Subscript):
@@ -1833,10 +1849,21 @@ class Machine:
         ov0 = {counter: 0} if is_for else {}
         inv_known = [iv.get("known") if isinstance(iv, dict) else None for iv in invs]
         invs = [iv["text"] if isinstance(iv, dict) else iv for iv in invs]
+        undefined_at_head = set()
         for i, inv in enumerate(invs):
             self.overlay.append(ov0)
             try:
-                g = self.truthy(self.eval_spec(inv, env))
+                try:
+                    g = self.truthy(self.eval_spec(inv, env))
+                except Unsupported as e:
+                    if not str(e).startswith("unbound name"):
+                        raise
+                    # the invariant speaks about a local that does not exist yet when the loop is reached (its
+                    # initialisation moved into the loop body): state the invariant says is carried across iterations
+                    # is not: the initiation obligation fails, it is not "unsupported"
+                    undefined_at_head.add(i)
+                    self.oblige("%s.inv%d.init" % (lid, i), False, detail="%s   [%s at the loop head: the invariant cannot be established]" % (inv, e))
+                    continue
             finally:
                 self.overlay.pop()
             self.oblige("%s.inv%d.init" % (lid, i), g, detail=inv)
@@ -1880,7 +1907,9 @@ class Machine:
         ovk = {counter: k} if is_for else {}
         self.overlay.append(ovk)
         try:
-            for inv in invs:
+            for i, inv in enumerate(invs):
+                if i in undefined_at_head:
+                    continue
                 self.assume(to_z3(self.truthy(self.eval_spec(inv, env))), qf_also=True)
         finally:
             self.overlay.pop()
